@@ -47,6 +47,10 @@ claims = {
  'C14': dict(engine='seq', cat='model_checking', ref='DESIGN.md §3 C14',
    text="Explicit-state BFS over all command-granular interleavings (depth 3 quick / 4 thorough) of three connections - the third one connecting in the middle of the history - over SELECT (valid, out of range, non-numeric), SET/GET/RPUSH, DBSIZE, FLUSHDB, FLUSHALL, CLIENT SETNAME/GETNAME, HELLO 2/3, MULTI/EXEC, WATCH; after every transition the data of databases 0, 1 and 15 is dumped through EVERY connected connection (a stale per-connection database pointer shows at once) and every connection's session record is compared with the model.",
    note=E1_NOTE, tech=E1_TECH),
+ 'C15': dict(engine='c15', cat='model_checking', ref='DESIGN.md §3 C15',
+   text="Exhaustive in bounds, two parts. (1) Differential: every command template of the emulator (the ~300-form matrix x 5 target key types, introspection commands, LCS IDX, HRANDFIELD WITHVALUES, transactions nesting every reply shape) x 5 corpus states, executed once on a RESP2 connection and once after HELLO 3 on fresh instances; the RESP2 reply must parse with RESP2 types only and equal the canonical down-conversion of the RESP3 reply (maps and pair lists flattened, sets as multisets, double/big number/verbatim as string, boolean as 0/1, null as nil). (2) State space of HELLO: BFS over all sequences (depth 3 / 4) of HELLO, HELLO 2/3/4/1/0/x, HELLO 3 SETNAME, malformed HELLO on two connections, probing both connections with HGETALL after every step (RESP2 connection must answer a flat array, RESP3 a map) and comparing each session record (proto, name) with the model.",
+   note="Trusted: the harness's strict RESP parser and the down-conversion comparator. Replies built from Go maps (COMMAND LIST, CLIENT LIST) are compared order-insensitively; HELLO's own reply and the resp= field of CLIENT INFO legitimately differ between the two runs and are masked.",
+   tech="differential exhaustive enumeration (RESP2 vs RESP3 runs of the implementation) + explicit-state BFS of protocol switching against the model"),
 }
 pending_reason = "check not built yet (work in progress in this session; see DESIGN.md build order)"
 
@@ -76,6 +80,7 @@ manifest = {
    "add_only": True
  },
  "engines": [
+   {"name": "c15", "path": "checks/mc/c15.go", "serves_properties": ["C15"], "kind_free_text": "RESP2/RESP3 differential enumeration + HELLO state space"},
    {"name": "scan", "path": "checks/mc/scan.go", "serves_properties": ["C17"], "kind_free_text": "history enumeration for the SCAN family"},
    {"name": "seq", "path": "checks/mc/seq.go", "serves_properties": [i for i in ids if claims.get(i,{}).get('engine')=='seq'], "kind_free_text": "E1: explicit-state BFS over model states, transitions replayed on the implementation (16 worker processes)"},
  ],
